@@ -160,6 +160,17 @@ Cfg3(aq, as, bq, bs) == [flows |-> <<Flow("A", "h.test/x", Un1, aq, as), Flow("B
                                       Flow("C", "h.test/z", Un3, CLine, CLine)>>, quotas |-> <<>>]
 NestFam == UNION {{Cfg3(a, TrivA, b, TrivB) : a \in NestA, b \in NestB}, {Cfg3(TrivA, a, TrivB, b) : a \in NestA, b \in NestB}}
 
+\* two user flows with the same filter URL (selected together): none / the first / the later one answers; response sides
+\* with and without an entry point, continuing behind the answering processor or not
+GateU(x) == <<Pr(x \o "c", "Cond"), Pr(x \o "g", "Gen"), Pr(x \o "p", "Plain")>>
+GateReq(x) == {<<C(S0, PE(x \o "c", "")), C(PE(x \o "c", "hit"), PE(x \o "g", "")), C(PE(x \o "c", "miss"), S1)>>,
+               <<C(S0, PE(x \o "p", "")), C(PE(x \o "p", ""), S1)>>}
+GateRes(x) == {<<C(S0, PE(x \o "p", "")), C(PE(x \o "p", ""), S1), C(PE(x \o "g", ""), PE(x \o "p", ""))>>,
+               <<C(PE(x \o "g", ""), PE(x \o "p", "")), C(PE(x \o "p", ""), S1)>>,
+               <<C(S0, PE(x \o "p", "")), C(PE(x \o "p", ""), S1), C(PE(x \o "g", ""), S1)>>}
+MultiFam == {[flows |-> <<Flow("E", "h.test/x", GateU("e"), eq, es), Flow("H", "h.test/x", GateU("h"), hq, hs)>>, quotas |-> <<>>] :
+                eq \in GateReq("e"), es \in GateRes("e"), hq \in GateReq("h"), hs \in GateRes("h")}
+
 \* structurally invalid files
 Bad ==
     {Cfg1(Ut, <<>>, Trivial), Cfg1(Ut, Trivial, <<>>), Cfg1(Ut, Trivial, Trivial),
@@ -171,8 +182,8 @@ Bad ==
 
 \* (an operator with a parameter, so that TLC evaluates only the space that is used)
 ConfigSpace(tier) ==
-    IF tier = "nv" THEN UNION {EntryFam(Ut, 2), ResCentric(Uq, 2), TwoFlows(2), NestFam, SelfRef}
-    ELSE IF tier = "quick" THEN UNION {ReqCentric(Uq, 3), ResCentric(Uq, 3), EntryFam(Ut, 3), RefFam(2), ChainFam(2), NestFam, SelfRef, Bad}
+    IF tier = "nv" THEN UNION {EntryFam(Ut, 2), ResCentric(Uq, 2), TwoFlows(2), NestFam, MultiFam, SelfRef}
+    ELSE IF tier = "quick" THEN UNION {ReqCentric(Uq, 3), ResCentric(Uq, 3), EntryFam(Ut, 3), RefFam(2), ChainFam(2), NestFam, MultiFam, SelfRef, Bad}
     ELSE IF tier = "mid" THEN UNION {ReqCentric(Ut, 3), ResCentric(Ut, 3), TwoFlows(2), SelfRef, Bad}
-    ELSE UNION {ReqCentric(Ut, 3), EntryFam(Ut, 4), ResCentric(Ut, 3), EntryFam(Ul, 3), TwoFlows(3), RefFam(3), ChainFam(3), NestFam, SelfRef, Bad}
+    ELSE UNION {ReqCentric(Ut, 3), EntryFam(Ut, 4), ResCentric(Ut, 3), EntryFam(Ul, 3), TwoFlows(3), RefFam(3), ChainFam(3), NestFam, MultiFam, SelfRef, Bad}
 =============================================================================
